@@ -9,6 +9,7 @@ result lines are schedule-independent verdicts plus counts that both sides deriv
 import os
 import re
 import vlib
+from props import c17_translate
 
 ID = "C17"
 LEVEL = "proof"
@@ -25,7 +26,17 @@ OBLIGATIONS = [NS + t for t in [
     "progress_measure_decreases", "run_without_new_calls_bounded", "position_iff_ranges", "nops_eq_ranges_length",
     "reachable2_invs", "ready_stable", "waiting_stable", "constructed_pool_quiescent_complete",
     "locked_fine_grained_no_lost_wakeup", "fine_refines_atomic",
+    # round 5: lock scopes regenerated from the source (Gen/PoolScopes.lean)
+    "Scopes.model_pool_scopes_is_generated", "Scopes.shared_state_only_under_lock", "Scopes.enqueue_no_lock_called_under_lock",
+    "Scopes.never_blocks_or_runs_under_lock", "Scopes.wake_up_after_publication", "Scopes.every_access_classified",
 ]]
+
+
+def translate():
+    """Gen/PoolScopes.lean: per function of parallel.cpp / parallel.h the accesses to the shared queue state, in program order, with
+    the flag `lexically under a lock on the queue's mutex` (hooks and NANO_VERIF branches removed)"""
+    return c17_translate.translate()
+
 TRUSTED = [
     "Lean 4.33.0 kernel (core library only for this property; no Mathlib import)",
     "axioms: at most propext, Classical.choice, Quot.sound (audited per theorem on every run)",
@@ -44,6 +55,10 @@ TRUSTED = [
     "hook H1 in /repo (NANO_VERIF) reports the synchronisation events in program order; the harness's pseudo-events (operator begin/"
     "arguments/end, call begin/return) are logged through the same atomic sequence counter",
     "std::mutex / condition_variable / packaged_task / shared_future behave as the model assumes (DESIGN.md §3)",
+    "tools/props/c17_translate.py (preprocessing of the NANO_VERIF conditionals and hook statements, brace-depth tracking of the lock "
+    "objects' lexical scopes, one regular expression per access kind, a count guard: every mention of m_tasks / m_stop / m_condition / "
+    "m_mutex lies in one of the 7 listed functions or is a declaration) -> Gen/PoolScopes.lean; lexical scope = lifetime of the lock "
+    "object (RAII; an explicit .unlock() ends it); the hand-written table modelScopes in Proofs/PoolScopesGen.lean is a reading of Model/Pool.lean",
     "tools/props/c17.py generator + python oracle; harness/c17.cpp monitors and watchdog; g++/libstdc++; ThreadSanitizer in the thorough tier",
 ]
 ASSUMPTIONS = [
